@@ -423,6 +423,10 @@ func (e *exec) body(c *call, lane int, ctx context.Context, arg interface{}, has
 	c.starts++
 	c.lane = lane
 	c.running = true
+	if e.kind != "pchan" && (c.ret == "closed" || c.ret == "full") {
+		// line, mline, RunnerQ turn a caller away only when the call was not queued; a queued call's caller waits for its result
+		e.hit("C14:"+kindName(e.kind)+":accepted-call-answered-as-rejected", fmt.Sprintf("call %d is executed although its caller had already been sent away with %s", c.id, c.ret))
+	}
 	if c.starts > 1 {
 		e.hit("C14:"+kindName(e.kind)+":call-executed-twice", fmt.Sprintf("call %d was started %d times", c.id, c.starts))
 		c.twice = true
@@ -652,6 +656,8 @@ func (e *exec) checkRouting(c *call) {
 	case c.ret == "closed":
 		if !e.stopped {
 			e.hit(k, fmt.Sprintf("caller of call %d received closed before Stop", c.id))
+		} else if e.kind != "pchan" && c.starts > 0 {
+			e.hit("C14:"+kindName(e.kind)+":accepted-call-answered-as-rejected", fmt.Sprintf("caller of call %d received closed although its call had been accepted and its callee had started: it gets neither its own result nor its own context's error", c.id))
 		}
 	case c.ret == "full":
 		if e.capQ == 0 && e.kind != "pchan" {
@@ -1048,6 +1054,9 @@ func backlog(kind string, n int) map[string]string {
 	go func() { r, err := h.call(tag(0), 0, 0, callee(0)); first <- canon(r, err) }()
 	settle()
 	sequential := h.kind == "line" || h.kind == "mline"
+	// runner and pchan skip a call whose context is done, so their callers must stay: up to 150 calls they are submitted
+	// one at a time (known acceptance order), above that in parallel (order unknown, everything else still checked)
+	ordered := sequential || n <= 150
 	var wg sync.WaitGroup
 	if sequential {
 		for id := 1; id <= n; id++ {
@@ -1068,6 +1077,9 @@ func backlog(kind string, n int) map[string]string {
 					hit("C14:"+name+":misrouted-result", fmt.Sprintf("backlog of %d: caller of call %d received %s", n, id, got))
 				}
 			}()
+			if ordered {
+				settle() // the caller is parked waiting for its result: the call is accepted before the next one is submitted
+			}
 		}
 		settle()
 	}
@@ -1111,7 +1123,7 @@ func backlog(kind string, n int) map[string]string {
 			break
 		}
 	}
-	if sequential {
+	if ordered {
 		for i := 1; i < len(got); i++ {
 			if got[i] < got[i-1] {
 				hit("C14:"+name+":start-order", fmt.Sprintf("backlog of %d: call %d ran after call %d although it was accepted earlier", n, got[i], got[i-1]))
@@ -1613,14 +1625,6 @@ func runCase(c corr.Case) corr.Result {
 	// every script runs in the child process: a panic in a goroutine of the code under test, a runtime fatal error or a
 	// hang then is an observation (monitor hit with the script as replay), never a failure of this process
 	n, oneP := amplify(c.Tag, c.Lines)
-	if f := os.Getenv("C14_PROF"); f != "" {
-		t0 := time.Now()
-		defer func() {
-			fh, _ := os.OpenFile(f, os.O_APPEND|os.O_CREATE|os.O_WRONLY, 0644)
-			fmt.Fprintf(fh, "%s %d %d %q\n", c.Tag, time.Since(t0).Microseconds(), n, c.Lines)
-			fh.Close()
-		}()
-	}
 	return runInChild(c.Lines, n, oneP)
 }
 
@@ -2017,11 +2021,11 @@ func spec() corr.Spec {
 			case i%50 == 29:
 				k := giveupKinds[(i/50)%len(giveupKinds)]
 				return corr.Case{Tag: "boom-" + k, Lines: genBoom(r, k)}
-			case i%300 == 83 || (tier != "quick" && i%100 == 83):
-				k := giveupKinds[(i/100)%len(giveupKinds)]
+			case i%307 == 83 || (tier != "quick" && i%101 == 83): // prime moduli: the heavy classes spread over all shards
+				k := giveupKinds[(i/101)%len(giveupKinds)]
 				return corr.Case{Tag: "backlog", Lines: []string{"new line 1 0", fmt.Sprintf("backlog %s %d", k, r.PickInt(65, 130, 300, 1000, 3000))}}
-			case i%400 == 63 || (tier != "quick" && i%100 == 63):
-				k := giveupKinds[(i/100)%len(giveupKinds)]
+			case i%401 == 63 || (tier != "quick" && i%103 == 63):
+				k := giveupKinds[(i/103)%len(giveupKinds)]
 				return corr.Case{Tag: "hammer", Lines: []string{"new line 1 0", fmt.Sprintf("hammer %s %d %d", k, r.Range(0, 1<<20), r.Range(2, 6))}}
 			}
 			ls, giveUp := genScript(r, tier)
